@@ -10,10 +10,11 @@ LEVEL = 'exploration'
 RULE = ('cases = (valid frame, cut point k) for grammar-generated frames of '
         'all five kinds: every k in 0..len-1 for frames <= 2 kB, field-'
         'boundary +-1 and 64 random cut points for 4 kB / 131 kB frames; '
-        'non-trivial = the complete frame itself decodes (so the prefix is a '
-        'prefix of an accepted frame); distinct = digest of (frame, k)')
-ASSUMPTIONS = ['a frame the library does not accept when complete is skipped '
-               '(acceptance is C05)']
+        'non-trivial = a strict prefix of a generated frame was decoded; '
+        'distinct = digest of (frame, k)')
+ASSUMPTIONS = ['prefixes of a generated frame that the decoder refuses when '
+               'complete (timestamp beyond year 9999) are checked as well; '
+               'acceptance of complete frames is C05']
 
 
 def shards(tier, seed):
@@ -100,8 +101,9 @@ def run_case(case, rec):
     n = len(data)
     whole = common.lib_unmarshal(data)
     if not whole.ok:
+        # (a generated frame the decoder has to refuse, e.g. a timestamp
+        # beyond year 9999: its strict prefixes are checked all the same)
         rec.count('complete_frame_not_accepted')
-        return
     cuts = case['cuts'] if case['cuts'] is not None else range(n)
     dig = canon.digest_bytes(data)
     for k in cuts:
@@ -142,7 +144,7 @@ def run_case(case, rec):
     # (only for frames the library demonstrably accepts from a bytearray:
     # the documented input type is bytes, and frames carrying a non-empty
     # field table are refused when handed over as a bytearray)
-    if case['cuts'] is None and n <= 600 and \
+    if whole.ok and case['cuts'] is None and n <= 600 and \
             common.lib_unmarshal(bytearray(data)).ok:
         buf = bytearray()
         step = 1 if n <= 64 else 3
